@@ -41,7 +41,9 @@ def families(tier):
                     out.append({'family': 'queries', 'where': where, 'method': method, 'mode': mode,
                                 'hist': list(h), 'coloring': False, 'indices': False})
     for method in ('cs', 'fd'):
-        for indices in (False, True):
+        # 'perm': a non-ascending subset of a variable whose entries are coupled (so the design
+        # variable's columns end up in different colours)
+        for indices in (False, True, 'perm'):
             for order in ('abc', 'cba', 'bac'):
                 # (a query with other of/wrt than the driver's while a total coloring of the
                 # approximated model is in place raises a KeyError about relevance seeds: an
@@ -155,20 +157,45 @@ def _twostate(case, no_rel):
 
 # ------------------------------------------------------------------------------------ queries
 
+def _cyc_jac(a):
+    n = len(a)
+    J = np.diag(3.0 + 2.0 * a)
+    for i in range(n):
+        J[i, (i + 1) % n] += 0.5
+        J[i, (i - 1) % n] -= 0.25
+    return J
+
+
 def _queries(case, no_rel):
     import openmdao.api as om
     p = om.Problem(reports=None)
     m = p.model
     if case['where'] == 'root3':
-        m.add_subsystem('A', om.ExecComp('ya = 3.0*a + a**2', a=np.ones(4), ya=np.ones(4)),
-                        promotes=['*'])
+        perm = case['indices'] == 'perm'
+        if perm:
+            class Cyc(om.ExplicitComponent):
+                def setup(self):
+                    self.add_input('a', np.ones(4))
+                    self.add_output('ya', np.ones(4))
+                    self.declare_partials('ya', 'a')
+
+                def compute(self, inputs, outputs):
+                    a = inputs['a']
+                    outputs['ya'] = 3.0 * a + a ** 2 + 0.5 * np.roll(a, -1) - 0.25 * np.roll(a, 1)
+
+                def compute_partials(self, inputs, partials):
+                    partials['ya', 'a'] = _cyc_jac(inputs['a'].real)
+            m.add_subsystem('A', Cyc(), promotes=['*'])
+        else:
+            m.add_subsystem('A', om.ExecComp('ya = 3.0*a + a**2', a=np.ones(4), ya=np.ones(4)),
+                            promotes=['*'])
         m.add_subsystem('B', om.ExecComp('yb = 5.0*b - b**2', b=np.ones(3), yb=np.ones(3)),
                         promotes=['*'])
         m.add_subsystem('C', om.ExecComp('f = (c-3.0)**2'), promotes=['*'])
         for name in case['order']:
             if name == 'a':
-                m.add_design_var('a', indices=[0, 1] if case['indices'] else None, lower=-10,
-                                 upper=10)
+                m.add_design_var('a', indices=[3, 0, 2] if perm else [0, 1] if case['indices']
+                                 else None, lower=-10, upper=10)
             else:
                 m.add_design_var(name, lower=-10, upper=10)
         m.add_objective('f')
@@ -178,10 +205,12 @@ def _queries(case, no_rel):
         p.driver.declare_coloring(show_summary=False, show_sparsity=False)
         vals = {'a': np.array([0.5, -1.0, 2.0, 1.5]), 'b': np.array([1.25, -0.5, 0.75]),
                 'c': np.array([1.0])}
-        ai = np.array([0, 1]) if case['indices'] else np.arange(4)
+        ai = np.array([3, 0, 2]) if perm else np.array([0, 1]) if case['indices'] else np.arange(4)
 
         def exact(of, wrt):
             if (of, wrt) == ('ya', 'a'):
+                if perm:
+                    return _cyc_jac(vals['a'])[:, ai]
                 return np.diag(3.0 + 2.0 * vals['a'])[:, ai]
             if (of, wrt) == ('yb', 'b'):
                 return np.diag(5.0 - 2.0 * vals['b'])
